@@ -52,8 +52,9 @@ RULE = (
     "nondominated_sort calls (dim None / each kind of dim, max_items around N and around cumulative layer "
     "sizes, flatten on/off). Distinct = digest of (N, D, layer sizes, duplicate count, probes); non-trivial = "
     "N >= 2 and (>= 2 layers or tied coordinates). case kind 'moasha': one seeded schedule (1..5 metrics, "
-    "rf in {2,3,4,2.5}, grace 1..3, max_t 1..30, 1..3 brackets, mode None/'min'/'max'/list, priority "
-    "default/NonDominated(dim)/Fixed/Linear(weights), 1..8 workers, 3..40 trials, arrival policy uniform / "
+    "rf in {2,3,4,2.5}, grace 1..3, max_t 1..30, 1..4 brackets (30%: 2..4 brackets with max_t 20..85, rf 2/3 and "
+    "long-lived trials so that brackets >= 1 have several rungs that are reached), mode None/'min'/'max'/list, priority "
+    "default/NonDominated(dim, max_num_samples None or 1..10)/Fixed/Linear(weights), 1..8 workers, 3..40 trials, arrival policy uniform / "
     "round-robin / starve-one / burst, eager or lazy suggest, integer-grid or continuous objective tables, "
     "early completions; report dicts in canonical key order, all reversed, a fixed shuffled order per trial, or "
     "re-shuffled per report with the resource attribute and extra keys interleaved; per-objective scales/offsets so "
@@ -64,7 +65,10 @@ ASSUMPTIONS = [
     "objective values are finite numbers (no NaN / inf)",
     "max_items >= 1 and N >= 1 (max_items = 0 and empty inputs are not probed)",
     "trials report every resource level 1,2,3,... (optionally shifted by +0.5), so a report newly reaches at "
-    "most one rung; rung levels themselves are read from the scheduler (the statement does not fix them)",
+    "most one rung; the rung levels of bracket s are grace*rf^(k+s) <= max_t (exact arithmetic), the scheduler's own "
+    "list is only compared with them (levels >= max_t are shadowed by the max_t stop and not judged)",
+    "NonDominatedPriority(max_num_samples=k): the best k items (layer-consistent order) are ranked, the others share "
+    "the worst priority, so an item at sorted position r has rank min(r, k)",
     "bracket assignment is MOASHA's own draw from the global numpy RNG (seeded per case) and is read back "
     "from the scheduler after on_trial_add; the priority object is observed through a recording subclass",
     "rank-rule verdicts use the priority vector the priority object returned; the Pareto-layer clause is "
@@ -130,6 +134,17 @@ def floors(tier):
         "decided:rung_rank_key_order_sensitive": 2000 if q else 50000,
         "decided:rung_rank_key_order_changes_pareto_layers": 1000 if q else 25000,
         "decided:key_order_twin_decisions": 8000 if q else 200000,
+        # brackets >= 1: rung levels from the documented formula, decisions at their (top) rungs
+        "decided:rung_levels_of_bracket>=1_nonempty": 150 if q else 4000,
+        "decided:rung_rank_bracket>=1": 1000 if q else 25000,
+        "decided:rung_rank_bracket>=2": 60 if q else 1500,
+        "decided:rung_rank_above_lowest_rung_of_bracket>=1": 400 if q else 10000,
+        "decided:rung_rank_top_rung_of_bracket>=1": 300 if q else 8000,
+        "decided:rung_rank_top_rung_of_bracket>=1:STOP": 80 if q else 2000,
+        # NonDominatedPriority(max_num_samples=k) with k < number of trials at the rung
+        "decided:nd_priority_vector_pareto_consistent": 2500 if q else 60000,
+        "decided:nd_priority_vector_with_max_num_samples<n": 500 if q else 12000,
+        "decided:rung_rank_new_trial_cut_off_by_max_num_samples": 250 if q else 6000,
     }
 
 
@@ -511,6 +526,23 @@ def _moasha_params(spec):
     P["col_affine"] = [[1, 0]] * d
     if rng2.random() < 0.6:
         P["col_affine"] = [[rng2.choice([1, 3, 10, 100]), rng2.choice([0, 0, 5, -7, 40])] for _ in range(d)]
+    # deep variant: 2..4 brackets and enough levels that bracket s >= 1 has several rungs of its own
+    # (bracket s: grace * rf^(k+s) <= max_t), long-lived trials so that the top rungs are reached
+    plain = "override" in spec  # explicit reproducer specs keep the plain parameters
+    if not plain and P["brackets"] < 4 and rng2.random() < 0.15:
+        P["brackets"] = 4
+    if not plain and rng2.random() < 0.3:
+        P["brackets"] = rng2.randint(2, 4)
+        P["rf"] = rng2.choice([2, 3, 3, 2.0, 3.0])
+        P["grace"] = rng2.choice([1, 1, 2])
+        P["max_t"] = rng2.choice([20, 28, 30, 40, 64, 70, 81, 85])
+        P["n_trials"] = rng2.randint(12, 30)
+        P["n_workers"] = rng2.randint(3, 8)
+        P["early"] = rng2.choice([0.0, 0.0, 0.2])
+        P["deep"] = True
+    # NonDominatedPriority(max_num_samples=k): only the best k items are ranked, the rest share the worst priority
+    if not plain and P["prio"]["kind"] == "nd" and rng2.random() < 0.6:
+        P["prio"] = dict(P["prio"], max_num_samples=rng2.choice([1, 1, 2, 2, 3, 4, 5, 7, 10]))
     if "override" in spec:
         P["key_order"], P["col_affine"] = "canonical", [[1, 0]] * d
     P.update(spec.get("override", {}))
@@ -617,7 +649,7 @@ def _make_scheduler(P, mode, calls):
     names = list(P["metrics"]) if pr.get("named") else None
     prio = None
     if pr["kind"] == "nd":
-        prio = NonDominatedPriority(metrics=names, dim=pr.get("dim"))
+        prio = NonDominatedPriority(metrics=names, dim=pr.get("dim"), max_num_samples=pr.get("max_num_samples"))
     elif pr["kind"] == "fixed":
         prio = FixedObjectivePriority(metrics=names, dim=pr.get("dim"))
     elif pr["kind"] == "linear":
@@ -669,6 +701,16 @@ class _Violated(Exception):
     pass
 
 
+def _ref_rung_levels(P, s_):
+    """Bracket ``s``: grace * rf^j for j = s, s+1, ... while the level is <= max_t (exact arithmetic)."""
+    rf, g, mt = Fraction(P["rf"]), Fraction(P["grace"]), Fraction(P["max_t"])
+    out, lev = [], g * rf**s_
+    while lev <= mt:
+        out.append(float(lev))
+        lev *= rf
+    return out
+
+
 def _drive(o, P, spec, sched, calls, script, judge, signs, table_signs, canonical_keys=False):
     """Run one schedule. ``script`` None => generate actions with the case's policy (and return them).
     ``judge`` => run the oracles. ``table_signs`` multiplies the table columns (twin run)."""
@@ -682,7 +724,8 @@ def _drive(o, P, spec, sched, calls, script, judge, signs, table_signs, canonica
     actions, decisions = [], []
     running = []  # trial ids in start order
     info = {}  # tid -> dict(trial, level, length, curve, bidx)
-    milestones = {}  # bidx -> sorted list of rung levels
+    milestones = {}  # bidx -> sorted list of rung levels (reference: documented formula)
+    own_levels = {}  # bidx -> the scheduler's own list (read-only probe)
     recorded = {}  # (bidx, milestone) -> list of (tid, signed vector)
     started = 0
     rr = 0
@@ -750,7 +793,22 @@ def _drive(o, P, spec, sched, calls, script, judge, signs, table_signs, canonica
                     b = sched._trial_info[tid]
                     bidx = next(i for i, bb in enumerate(sched._brackets) if bb is b)
                     if bidx not in milestones:
-                        milestones[bidx] = sorted(float(m) for m, _ in b._rungs)
+                        own_levels[bidx] = sorted(float(m) for m, _ in b._rungs)
+                        milestones[bidx] = _ref_rung_levels(P, bidx)
+                        if judge:
+                            # levels >= max_t are never consulted by on_trial_result (the max_t stop comes first)
+                            mine = [m for m in milestones[bidx] if m < max_t]
+                            theirs = [m for m in own_levels[bidx] if m < max_t]
+                            o.count("decided:rung_levels_of_bracket")
+                            if bidx >= 1 and mine:
+                                o.count("decided:rung_levels_of_bracket>=1_nonempty")
+                            if mine != theirs:
+                                lost = [m for m in mine if m not in theirs]
+                                _violate(o, "rung_levels",
+                                         "rung_levels:bracket_" + ("0" if bidx == 0 else "s>=1") + "_" +
+                                         ("lacks_level_grace*rf^(k+s)_below_max_t" if lost else "has_level_that_is_not_grace*rf^(k+s)"),
+                                         {"bracket": bidx, "grace": P["grace"], "rf": P["rf"], "max_t": max_t,
+                                          "documented": mine, "scheduler": theirs})
                 except Exception:  # noqa: BLE001 - read-only probe of private state not available
                     if judge:
                         o.inconclusive("bracket_of_trial_not_readable")
@@ -800,7 +858,12 @@ def _drive(o, P, spec, sched, calls, script, judge, signs, table_signs, canonica
             decisions.append((tid, level, dec))
             if judge:
                 o.ev("report", tid, level, raw, "->", dec, exp[0], exp[1])
-                _judge_report(o, P, exp, dec, t, svec, raw, signs, recorded.get((bidx, exp[1]), []), new_calls, inv_rf, korder)
+                ctx = {"bracket": bidx}
+                if exp[1] is not None:
+                    below = [m for m in milestones[bidx] if m < max_t]
+                    ctx["top_rung"] = bool(below) and exp[1] == below[-1]
+                    ctx["level_known_to_scheduler"] = exp[1] in own_levels.get(bidx, [])
+                _judge_report(o, P, exp, dec, t, svec, raw, signs, recorded.get((bidx, exp[1]), []), new_calls, inv_rf, korder, ctx)
             if exp[1] is not None:
                 recorded.setdefault((bidx, exp[1]), []).append((tid, svec, korder))
             # protocol
@@ -824,9 +887,11 @@ def _drive(o, P, spec, sched, calls, script, judge, signs, table_signs, canonica
     return actions, decisions, aborted
 
 
-def _judge_report(o, P, exp, dec, t, svec, raw, signs, entries, new_calls, inv_rf, korder=None):
+def _judge_report(o, P, exp, dec, t, svec, raw, signs, entries, new_calls, inv_rf, korder=None, ctx=None):
     kind = exp[0]
-    base = {"time": t, "max_t": P["max_t"], "rf": P["rf"], "decision": dec}
+    ctx = ctx or {}
+    base = {"time": t, "max_t": P["max_t"], "rf": P["rf"], "decision": dec, "bracket": ctx.get("bracket"),
+            "grace": P["grace"], "brackets": P["brackets"]}
     if kind == "max_t":
         o.count("decided:max_t_stop")
         if dec != STOP:
@@ -863,7 +928,8 @@ def _judge_report(o, P, exp, dec, t, svec, raw, signs, entries, new_calls, inv_r
     if noncanon:
         wit["metric_key_order_of_each_report"] = [list(ko) for ko in korders]
     if not new_calls:
-        _violate(o, "rung_rank_rule", "rung_decision_without_priority_evaluation", wit)
+        _violate(o, "rung_rank_rule", "rung_decision_without_priority_evaluation" + (
+            "" if ctx.get("level_known_to_scheduler", True) else ":level_grace*rf^(k+s)_missing_from_bracket"), wit)
         p_used = None
     else:
         M, p_used = new_calls[-1]
@@ -941,6 +1007,15 @@ def _judge_report(o, P, exp, dec, t, svec, raw, signs, entries, new_calls, inv_r
         o.count("decided:rung_rank_with_tied_priority")
     o.count("rung_outcome:" + str(dec))
     o.count("rung_rank:" + P["prio"]["kind"])
+    if ctx.get("bracket", 0) >= 1:
+        o.count("decided:rung_rank_bracket>=1")
+        if ctx.get("top_rung"):
+            o.count("decided:rung_rank_top_rung_of_bracket>=1")
+            o.count("decided:rung_rank_top_rung_of_bracket>=1:" + expected)
+        if exp[1] > P["grace"] * P["rf"] ** ctx["bracket"]:
+            o.count("decided:rung_rank_above_lowest_rung_of_bracket>=1")
+    if ctx.get("bracket", 0) >= 2:
+        o.count("decided:rung_rank_bracket>=2")
     if noncanon:
         o.count("decided:rung_rank_noncanonical_key_order")
     if mixed:
@@ -962,14 +1037,42 @@ def _judge_report(o, P, exp, dec, t, svec, raw, signs, entries, new_calls, inv_r
         lay = ref.layer_numbers(Mref)
         lo = int((lay < lay[-1]).sum())
         hi = lo + int((lay == lay[-1]).sum()) - 1
+        # max_num_samples = k: only the best k items are ranked, all others share the worst priority, so the
+        # rank (number of strictly better items) of an item at sorted position r is min(r, k)
+        kmax = P["prio"].get("max_num_samples")
+        k_eff = n if kmax is None else min(int(kmax), n)
+        truncated = k_eff < n
+        lo_raw = lo
+        lo, hi = min(lo, k_eff), min(hi, k_eff)
         v_lo = Fraction(lo, n) <= inv_rf
         v_hi = Fraction(hi, n) <= inv_rf
         is_perm = p.dtype.kind in "iu" and sorted(p.tolist()) == list(range(n))
-        per_item_ok = all(
-            (p[i] < p[j]) for i in range(n) for j in range(n) if lay[i] < lay[j]
-        )
+        # Pareto consistency of the per-trial priorities: an item of an earlier layer is never worse than one of
+        # a later layer, and the two may only tie when both are cut off (>= k items strictly better than them)
+        below = [int((p < p[i]).sum()) for i in range(n)]
+        worse = [(i, j) for i in range(n) for j in range(n) if lay[i] < lay[j] and p[i] > p[j]]
+        tied = [(i, j) for i in range(n) for j in range(n) if lay[i] < lay[j] and p[i] == p[j] and below[i] < k_eff]
+        per_item_ok = not worse and not tied
+        o.count("decided:nd_priority_vector_pareto_consistent")
+        if truncated:
+            o.count("decided:nd_priority_vector_with_max_num_samples<n")
+            o.count("decided:rung_rank_with_max_num_samples<n")
+            if lo_raw >= k_eff:
+                o.count("decided:rung_rank_new_trial_cut_off_by_max_num_samples")
         if not per_item_ok:
             o.count("obs:nd_priority_vector_not_layer_monotone_per_trial")
+            as_order = is_perm and all(lay[p[k]] <= lay[p[k + 1]] for k in range(n - 1))
+            if as_order:
+                mech = "nondominated_priority_is_sort_order_not_per_trial_priority"
+            elif worse:
+                mech = "nondominated_priority:item_of_later_layer_has_better_priority" + (
+                    ":max_num_samples<n" if truncated else "")
+            else:
+                mech = "nondominated_priority:items_of_different_layers_tie_with_fewer_than_k_items_better" + (
+                    ":max_num_samples<n" if truncated else "")
+            i, j = (worse or tied)[0]
+            _violate(o, "priority_pareto_consistent", mech,
+                     dict(wit, layer_of_each_row=lay.tolist(), pair=[i, j], max_num_samples=kmax))
         if v_lo == v_hi:
             forced = CONTINUE if v_lo else STOP
             o.count("decided:pareto_forced_verdict")
@@ -984,7 +1087,7 @@ def _judge_report(o, P, exp, dec, t, svec, raw, signs, entries, new_calls, inv_r
                 _violate(o, 
                     "moasha_follows_pareto_ranking",
                     mech,
-                    dict(wit, layer_of_each_row=lay.tolist(), new_trial_rank_between=[lo, hi],
+                    dict(wit, layer_of_each_row=lay.tolist(), new_trial_rank_between=[lo, hi], max_num_samples=kmax,
                          verdict_of_every_layer_consistent_ranking=forced),
                 )
 
@@ -1042,6 +1145,7 @@ def _run_moasha(spec, o):
     o.sample = {
         "params": {k: P[k] for k in ("d", "rf", "grace", "max_t", "brackets", "mode", "prio", "n_workers", "n_trials",
                                      "policy", "p_start", "col_kinds", "t_offset", "early", "key_order", "col_affine")},
+        "deep_brackets": bool(P.get("deep")),
         "first_events": [list(x) for x in decisions[:12]],
         "n_reports": len(decisions),
         "rung_rank_decisions": n_rank,
